@@ -274,3 +274,7 @@ func Unprotect(ptr interface{})            {}
 
 // OutLines returns the lines printed to standard output so far (executor only).
 func OutLines() []string { return nil }
+
+// RealEnv switches the harness model of the named environment function off
+// for the rest of the path: its real body runs (executor only).
+func RealEnv(name string) {}
